@@ -149,7 +149,52 @@ def c01_selection(out):
             obl.check_unsat(ex, "is_reverse:ok", list(r.pc) + [z3.And(op == 0, rv("partial_ord"))], info=("rev", "ok"))
     for label, m, info in obl.failed:
         out.violation("e3|%s" % label, "-", "MIR path of %s disagrees with the documented precedence / reverse rule (%s)" % (label, info))
+    c01_to_index(out, obl)
     return obl
+
+
+class _All(set):
+    def __contains__(self, x):
+        return True
+
+
+def c01_to_index(out, obl):
+    """cross-variant ordering: the arm generated for the i-th variant maps it to the index i (an untyped usize literal, nothing else)"""
+    eng = engine()
+    ex = eng.executor(opaque_local={"VariantEntry::make_pat_wildcard"}, slice_bound=3)
+    ex.trace = _All()
+    fn = eng.find("build_to_index_fn")
+    res = ex.run(fn, eng.args_for(fn))
+    obl.note_paths("build_to_index_fn", res, ex)
+    for r in res:
+        if r.kind != "return":
+            out.inconclusive.append("fn=build_to_index_fn reason=%s" % (r.value,))
+            continue
+        evs = [e for e in r.events if e[0] != "TokenStream::new"]
+        n = sum(1 for c in r.pc if re.fullmatch(r"len\(variants\) > \d+", str(c)))
+        arms = []
+        i = 0
+        while i < len(evs):
+            if evs[i][0] == "VariantEntry::make_pat_wildcard":
+                j = i + 1
+                arm = []
+                while j < len(evs) and evs[j][0] not in ("Vec::push",):
+                    arm.append(evs[j])
+                    j += 1
+                arms.append((evs[i][1][0], arm))
+                i = j
+            i += 1
+        obl.total += 1
+        ok = len(arms) == n
+        for idx, (pat, arm) in enumerate(arms):
+            names = [e[0].split("::")[-1] for e in arm]
+            ok = ok and pat == "sym:variants.[%d]" % idx
+            ok = ok and names == ["to_tokens", "push_group", "push_fat_arrow", "to_tokens", "push_comma"]
+            ok = ok and len(arm) == 5 and arm[3][0] == "ToTokens::usize::to_tokens" and arm[3][1][0] == str(idx)
+        if ok:
+            obl.discharged += 1
+        else:
+            out.violation("to_index-arms", "-", "build_to_index_fn does not map the i-th variant to the plain index i: %s" % ([(p, [e[0].split("::")[-1] + ":" + e[1][0][:20] for e in a]) for p, a in arms][:3],))
 
 
 def c08_tables(out):
